@@ -24,6 +24,11 @@ import (
 )
 
 const shimPath = "verif/shim/vsync"
+const osShimPath = "verif/shim/vos"
+
+// identifiers of package os that verif/shim/vos provides (keep in sync with vos.Provided)
+var vosProvided = map[string]bool{"O_RDONLY": true, "O_WRONLY": true, "O_RDWR": true, "O_APPEND": true, "O_CREATE": true,
+	"O_EXCL": true, "O_SYNC": true, "O_TRUNC": true, "FileMode": true, "OpenFile": true, "Remove": true}
 
 func main() {
 	repo := flag.String("repo", "/repo", "repository root")
@@ -39,7 +44,7 @@ func main() {
 		panic(err)
 	}
 	replace := map[string]string{}
-	nGo, nSync, nRange := 0, 0, 0
+	nGo, nSync, nRange, nOS := 0, 0, 0, 0
 	// pass 1: package-level map variables (syntactic: `var x = make(map[K]V...)`,
 	// `var x map[K]V`, `var x = map[K]V{...}`) - test files excluded
 	pkgMaps := map[string]bool{}
@@ -110,6 +115,31 @@ func main() {
 				nSync++
 			}
 		}
+		// import "os" -> vos, only where every os.X the file uses is provided by the shim
+		for _, imp := range f.Imports {
+			p, _ := strconv.Unquote(imp.Path.Value)
+			if p != "os" || (imp.Name != nil && imp.Name.Name != "os") {
+				continue
+			}
+			ok, uses := true, 0
+			ast.Inspect(f, func(n ast.Node) bool {
+				if se, isSel := n.(*ast.SelectorExpr); isSel {
+					if id, isID := se.X.(*ast.Ident); isID && id.Name == "os" && id.Obj == nil {
+						uses++
+						if !vosProvided[se.Sel.Name] {
+							ok = false
+						}
+					}
+				}
+				return true
+			})
+			if ok && uses > 0 {
+				imp.Path.Value = strconv.Quote(osShimPath)
+				imp.Name = ast.NewIdent("os")
+				changed = true
+				nOS++
+			}
+		}
 		// go statements
 		hasGo := false
 		ast.Inspect(f, func(n ast.Node) bool {
@@ -155,7 +185,7 @@ func main() {
 	if err := os.WriteFile(filepath.Join(*out, "overlay.json"), ov, 0644); err != nil {
 		panic(err)
 	}
-	fmt.Printf("instrument: %d files rewritten (%d sync imports, %d go statements, %d map ranges ordered)\n", len(replace), nSync, nGo, nRange)
+	fmt.Printf("instrument: %d files rewritten (%d sync imports, %d go statements, %d map ranges ordered, %d os imports)\n", len(replace), nSync, nGo, nRange, nOS)
 }
 
 func addImport(f *ast.File, name, path string) {
